@@ -46,6 +46,10 @@ check("C10", "fault_enumeration", "F", "exhaustive enumeration of limit values a
       "For every small tree the inode/size limits take every value around their boundary, and the context is cancelled inside every event of the uncancelled run (each inode visit, Extract, AfterExtractorRun, standalone extractor, detector, and before Scan); the hard-bound invariants are checked on each run; image byte limit at L-1/L/L+1.",
       "Trusted: the cancelling hooks run synchronously inside the scan's own callbacks, so the cancellation instant is exact. Outside: trees > 5/6 nodes; cancellation from another goroutine at arbitrary instruction boundaries.", "DESIGN §5 C10")
 
+check("C16", "model_checking", "S", "stateless model checking of the real instrumented code: controlled cooperative scheduler + DFS over choice sequences with preemption bounding (sync/go/chan rewritten by a build overlay); linearizability by brute force; free-running -race pass as stated complement",
+      "Every interleaving with <= 2 (thorough 3) preemptions of every RequestCache program (2-3 threads x 1-2 ops on colliding keys) and of the real override/relax ComputePatches on small universes (all channel delivery orders, callback points) is executed on the real code; each execution is checked for fetch-once, linearizability, deadlock, sortedness/dedup and schedule-independence of the patch list.",
+      "Trusted: scheduling points at sync/channel/spawn operations, after release operations and at harness callbacks suffice; unsynchronised accesses are only seen by the separate free-running -race pass (not model checking; counted as race_runs). Resolve-client calls other than Versions are not scheduling points because the resolver's call order depends on Go map iteration. Outside: > 3 preemptions, > 4 threads, concurrent SetMap.", "DESIGN §5 C16, appendix A")
+
 ALL = ["C%02d" % i for i in range(1, 21)]
 for p in ALL:
     if p not in CHECKS:
